@@ -41,7 +41,10 @@ pub trait HasChildren: HasContext {
 
     fn insert_by_id(&self, value: Rc<XmlItem>, id: Option<usize>) -> error::Result<Rc<XmlItem>>;
 
+    fn check_insert(&self, value: &Rc<XmlItem>) -> error::Result<()>;
+
     fn append(&self, value: Rc<XmlItem>) -> error::Result<Rc<XmlItem>> {
+        self.check_insert(&value)?;
         let id = self.last_child_or_self_id();
         value.set_order_after(id);
         self.insert_by_id(value, None)
@@ -67,6 +70,10 @@ pub trait HasChildren: HasContext {
 
     fn insert_before(&self, value: Rc<XmlItem>, id: usize) -> error::Result<Rc<XmlItem>> {
         self.child_index(id).ok_or(error::Error::OufOfIndex(id))?;
+        self.check_insert(&value)?;
+        if value.id() == id {
+            return Ok(value);
+        }
         value
             .set_order_before(id)
             .ok_or(error::Error::OufOfIndex(id))?;
@@ -440,13 +447,11 @@ impl HasChildren for XmlAttribute {
     }
 
     fn insert_by_id(&self, value: Rc<XmlItem>, id: Option<usize>) -> error::Result<Rc<XmlItem>> {
-        if value.id() == self.id() || self.ancestor(value.id()) {
-            return Err(error::Error::InvalidHierarchy);
-        }
+        self.check_insert(&value)?;
 
+        let v = XmlAttributeValue::try_from(value.clone())?;
         value.remove_from_parent();
         value.set_parent_id(Some(self.id()));
-        let v = XmlAttributeValue::try_from(value.clone())?;
         if let Some(id) = id {
             let index = self.child_index(id).unwrap();
             self.values.borrow_mut().insert(index, v.clone());
@@ -454,6 +459,14 @@ impl HasChildren for XmlAttribute {
             self.values.borrow_mut().push(v);
         }
         Ok(value)
+    }
+
+    fn check_insert(&self, value: &Rc<XmlItem>) -> error::Result<()> {
+        if value.id() == self.id() || self.ancestor(value.id()) {
+            return Err(error::Error::InvalidHierarchy);
+        }
+
+        XmlAttributeValue::try_from(value.clone()).map(|_| ())
     }
 }
 
@@ -1560,30 +1573,27 @@ impl HasChildren for XmlDocument {
             }
         }
 
-        match &*value {
-            XmlItem::Comment(_) => {
-                add_or_insert(self, value.clone(), id);
-                Ok(value)
-            }
+        self.check_insert(&value)?;
+        add_or_insert(self, value.clone(), id);
+        Ok(value)
+    }
+
+    fn check_insert(&self, value: &Rc<XmlItem>) -> error::Result<()> {
+        match &**value {
+            XmlItem::Comment(_) | XmlItem::PI(_) => Ok(()),
             XmlItem::DocumentType(_) => {
                 if self.document_declaration().is_some() || self.document_element().is_ok() {
                     Err(error::Error::InvalidType)
                 } else {
-                    add_or_insert(self, value.clone(), id);
-                    Ok(value)
+                    Ok(())
                 }
             }
             XmlItem::Element(_) => {
                 if self.document_element().is_ok() {
                     Err(error::Error::InvalidType)
                 } else {
-                    add_or_insert(self, value.clone(), id);
-                    Ok(value)
+                    Ok(())
                 }
-            }
-            XmlItem::PI(_) => {
-                add_or_insert(self, value.clone(), id);
-                Ok(value)
             }
             _ => Err(error::Error::InvalidType),
         }
@@ -2152,28 +2162,32 @@ impl HasChildren for XmlElement {
     }
 
     fn insert_by_id(&self, value: Rc<XmlItem>, id: Option<usize>) -> error::Result<Rc<XmlItem>> {
+        self.check_insert(&value)?;
+
+        value.remove_from_parent();
+        value.set_parent_id(Some(self.id()));
+        if let Some(id) = id {
+            let index = self.child_index(id).unwrap();
+            self.children.borrow_mut().insert(index, value.clone());
+        } else {
+            self.children.borrow_mut().push(value.clone());
+        }
+        Ok(value)
+    }
+
+    fn check_insert(&self, value: &Rc<XmlItem>) -> error::Result<()> {
         if value.id() == self.id() || self.ancestor(value.id()) {
             return Err(error::Error::InvalidHierarchy);
         }
 
-        match &*value {
+        match &**value {
             XmlItem::CData(_)
             | XmlItem::CharReference(_)
             | XmlItem::Comment(_)
             | XmlItem::Element(_)
             | XmlItem::PI(_)
             | XmlItem::Text(_)
-            | XmlItem::Unexpanded(_) => {
-                value.remove_from_parent();
-                value.set_parent_id(Some(self.id()));
-                if let Some(id) = id {
-                    let index = self.child_index(id).unwrap();
-                    self.children.borrow_mut().insert(index, value.clone());
-                } else {
-                    self.children.borrow_mut().push(value.clone());
-                }
-                Ok(value)
-            }
+            | XmlItem::Unexpanded(_) => Ok(()),
             _ => Err(error::Error::InvalidType),
         }
     }
